@@ -247,6 +247,21 @@ Definition image (c : pcfg) (m : pmsg) : entry :=
 Fixpoint assign_offsets (base : Z) (l : list pmsg) : list (pmsg * Z) :=
   match l with [] => [] | m :: r => (m, base) :: assign_offsets (base + 1) r end.
 
+(* the whole ErrNoError branch.  [block_ts] = block.Timestamp (ZERO_TIME: the response carried log_append_time = -1, or the
+   response version has no such field): from 0.10 a set LogAppendTime overwrites msg.Timestamp of every message of the
+   batch; the offsets are assigned in BOTH cases.  Result: (message, reported Offset, reported Timestamp). *)
+Definition reported_ts (c : pcfg) (block_ts : Z) (m : pmsg) : Z :=
+  if v0_10 c && negb (block_ts =? ZERO_TIME) then block_ts else pm_ts m.
+Fixpoint handle_success (c : pcfg) (base block_ts : Z) (l : list pmsg) : list (pmsg * Z * Z) :=
+  match l with [] => [] | m :: r => (m, base, reported_ts c block_ts m) :: handle_success c (base + 1) block_ts r end.
+
+(* a topic configured with message.timestamp.type = LogAppendTime: the leader stamps what it appends with its own clock
+   (only formats that carry a timestamp) and answers that time in the response block *)
+Definition stamp_entry (lat : Z) (e : entry) : entry :=
+  mkEntry (e_key e) (e_value e) (e_headers e) (match e_ts e with Some _ => Some lat | None => None end).
+Definition stamp_log (lat : Z) (lg : list (Z * entry)) : list (Z * entry) :=
+  if lat =? ZERO_TIME then lg else map (fun oe => (fst oe, stamp_entry lat (snd oe))) lg.
+
 (* ---------------------------------------------------------------- routing *)
 
 Definition E_LEADER_NOT_AVAILABLE := 5.
